@@ -7,15 +7,16 @@ PROP = "C22"
 def main(tier, seed, replay=None):
     return sicheck.run(
         PROP, tier, seed, replay, "Proofs/SISound.vo",
-        "(1) model vs real: union on every pair, cardinality, max/min/eval(1,3,40) in both signednesses on every interval of the fixed "
+        "(1) model vs real: union on every pair, pseudo_join(smart_join=False) on a third of them, least_upper_bound of 3-4 operands, cardinality, max/min/eval(1,3,40) in both signednesses on every interval of the fixed "
         "domain, the model's member list against the definition; "
         "(2) sweep of the real union/least_upper_bound/pseudo_join/widen (result contains every member of both operands), "
+        "least_upper_bound of three and four intervals (every triple at width 2, samples at widths 3 and 4), "
         "intersection (contains every common member) on all pairs of width 1,2, width 3 (all pairs in thorough), fixed samples "
         "at width 4 and 5..64 bits; eval (signed and unsigned: members only, no repeats, complete when n allows, at most n), "
         "min/max in both signednesses, cardinality, solution(v) for every v (width <= 6) on every interval of width 1..4 and "
         "sampled wider ones.  distinct = (operation,input) evaluations that passed",
         ["Print Assumptions of Props/C22.v theorems: Closed under the global context",
-         "proved: cardinality = number of members; member list = gamma; union of two sound; unsigned min exact, unsigned eval lists "
-         "members only, max/min bound every member (either signedness).  least_upper_bound of 3+, meet, widening, solution are NOT "
+         "proved: cardinality = number of members; member list = gamma; pseudo_join (either flag) and least_upper_bound of any number sound; unsigned min exact, unsigned eval lists "
+         "members only, max/min bound every member (either signedness).  meet, widening, solution are NOT "
          "modelled and are only tested by the sweep"],
         ["gamma as in C21"])
